@@ -140,7 +140,7 @@ def _prep_loss(loss: pd.DataFrame, phases: dict = {}) -> pd.DataFrame:
     maxloss = df["Loss (W)"].max()
     if maxloss == 0.0:
         maxloss = 1.0
-    df["Mix"] = df["Loss (W)"].to_numpy() / maxloss
+    df["Mix"] = np.clip(df["Loss (W)"].to_numpy() / maxloss, 0.0, 1.0)
     return df
 
 
